@@ -49,7 +49,9 @@ class _BaseITML(MahalanobisMixin):
       bounds = bounds.ravel()
       if bounds.size != 2:
         raise ValueError("`bounds` should be an array-like of two elements.")
-      self.bounds_ = bounds
+      # (copy: the zero entries are replaced below, and the array given by
+      # the caller must not be modified)
+      self.bounds_ = bounds.copy()
     self.bounds_[self.bounds_ == 0] = 1e-9
     # set the prior
     # pairs will be deduplicated into X two times, TODO: avoid that
